@@ -173,8 +173,7 @@ package sm2
 
 //@ func sm2.TestPrivateKey#ct
 //@ secret priv
-//@ declassify acc == 0 : zero-key verdict
-//@ declassify cmp == -1 : range verdict (the result of the function)
+//@ verdicts
 //@ public_result
 
 // ---------------------------------------------------------------------------------------------
